@@ -259,4 +259,11 @@ def obligations(tier):
             add("tagT/%d" % i, "VerifC15Tag", [tm, al])
     for k in range(1, 11):
         add("invalid/k=%d" % k, "VerifC15Invalid", [k], covers=["invalid-done"])
+    # omitzero through the OmitZeroStructFields option; embedded-fallback dominance with 3 candidates
+    for opt in (False, True):
+        L.append(ob("omitzero-option/option=%d" % opt, ".", "VerifC15OmitZeroOption", [opt], covers=["end"], max_seconds=600))
+    for kind in (0, 1):
+        for rej in (False, True):
+            for t in (['{"A":1,"?":2}'] if q else ['{"A":1,"?":2}', '{"??":2,"A":1}']):
+                L.append(ob("fallback-dominance/kind=%d/reject=%d/%s" % (kind, rej, t.replace('"', '')), ".", "VerifC15FallbackDominance", [kind, rej, t], covers=["end"], max_seconds=600))
     return L
